@@ -77,8 +77,18 @@ func main() {
 	noEvidence := flag.Bool("no-evidence", false, "do not write evidence (used by the mutant sweep)")
 	overlayFile := flag.String("overlay", "", "JSON file {path: content} applied as an in-memory overlay (mutant sweep)")
 	listObl := flag.Bool("v", false, "print every obligation")
+	describe := flag.Bool("describe", false, "print the registered properties (id, title, explanation, assumptions) as JSON and exit")
 	flag.Parse()
 	verifDir = *vdir
+	if *describe {
+		out := map[string]interface{}{}
+		for id, p := range props {
+			out[id] = map[string]interface{}{"title": p.Title, "explanation": p.Explanation, "assumptions": p.Assumptions}
+		}
+		data, _ := json.MarshalIndent(out, "", " ")
+		fmt.Println(string(data))
+		os.Exit(0)
+	}
 	if t := os.Getenv("VERIF_TIER"); t != "" && *tier == "" {
 		*tier = t
 	}
@@ -138,6 +148,9 @@ func main() {
 	start := time.Now()
 	thorough := *tier == "thorough"
 	c0, err := Load(*repo, overlay, thorough)
+	if err == nil && thorough {
+		c0.buildVTA()
+	}
 	loadDur := time.Since(start)
 	for _, id := range ids {
 		t0 := time.Now()
@@ -153,7 +166,7 @@ func main() {
 		}
 		// fresh obligation list per property, shared program
 		c = &Ctx{Mod: c0.Mod, GuardSpecs: c0.GuardSpecs, RepoDir: c0.RepoDir, Pkgs: c0.Pkgs, byPath: c0.byPath, Prog: c0.Prog, Fset: c0.Fset, SrcFns: c0.SrcFns,
-			ruleDocs: map[string]string{}, ruleMin: map[string]int{}, idx: c0.idx, lockA: c0.lockA}
+			ruleDocs: map[string]string{}, ruleMin: map[string]int{}, idx: c0.idx, lockA: c0.lockA, vtaCallees: c0.vtaCallees, vtaStats: c0.vtaStats}
 		if c.lockA != nil {
 			c.lockA.c = c
 		}
@@ -168,6 +181,9 @@ func main() {
 				}
 			}()
 			runSelfTests(c, id)
+			if c.vtaStats != "" {
+				c.note("%s", c.vtaStats)
+			}
 			p.Run(c)
 		}()
 		if c.lockA != nil {
